@@ -154,9 +154,10 @@ theorem back_bound (x u : ℚ) :
     header lines written returns a table of the same shape whose entry `(i,j)` is
     `back x_ij u_j` — within half a unit of the sixth significant digit in units `u_j`
     (`back_bound`; a unit factor `0` makes `x/u` meaningless, the bound needs `u ≠ 0` only
-    through `x/u`). -/
+    through `x/u`).  `1 ≤ c` is not needed at token level; it is kept because a row without
+    columns writes no line at character level. -/
 theorem table_roundtrip (data : List (List ℚ)) (dims : List ℚ) (header : List (List Tok)) (c : ℕ)
-    (hr : data ≠ []) (hc : 1 ≤ c) (hrect : ∀ row ∈ data, row.length = c)
+    (hr : data ≠ []) (_hc : 1 ≤ c) (hrect : ∀ row ∈ data, row.length = c)
     (hd : dims = [] ∨ dims.length = c) :
     ∃ f, exportT data dims header = .ok f ∧ f.header = header ∧ f.rows.length = data.length ∧
       importT f dims header.length
@@ -179,7 +180,7 @@ theorem table_roundtrip (data : List (List ℚ)) (dims : List ℚ) (header : Lis
       obtain ⟨i, hi, rfl⟩ := List.mem_iff_getElem.mp htl
       simp only [List.getElem_zipWith]
       exact tokOf_value_some _
-    rw [readAll_num _ hnum, ← List.map_flatten]
+    rw [readAll_num _ hnum]
     have hrows : ∀ l ∈ data.map (fun row => (exportRowT dims row).map tokVal), l.length = c := by
       intro l hl
       obtain ⟨row, hrow, rfl⟩ := List.mem_map.mp hl
